@@ -392,7 +392,7 @@ def int_type_cases(check, tier):
     rng = check.rng
     cases = [(cn, {}) for cn in INT_CLASSES]
     cases += [('Integer8', {'ge': -5, 'le': 5}), ('Integer8', {'gt': -5, 'lt': 5}), ('Integer', {'ge': 0, 'lt': 100}),
-              ('Integer32', {'values': [1, 5, 7]}), ('UnsignedInteger16', {'le': 1000}), ('Integer', {'gt': 10 ** 20}),
+              ('Integer32', {'values': [1, 5, 7]}), ('Integer', {'values': [7]}), ('UnsignedInteger16', {'le': 1000}), ('Integer', {'gt': 10 ** 20}),
               ('Integer16', {'ge': 10, 'gt': 12, 'le': 20, 'lt': 19}), ('Integer64', {'le': -1}),
               ('Integer8', {'nillable': False}), ('Integer', {'nillable': False, 'min_occurs': 1}),
               ('Integer32', {'min_occurs': 1})]
@@ -520,7 +520,7 @@ def family_text_e2e(check, tier):
     from spyne.model.primitive import Unicode
     rng = check.rng
     tcases = [{'min_len': 2}, {'max_len': 3}, {'min_len': 1, 'max_len': 4}, {'pattern': '[a-z]+'}, {'pattern': 'a|ab'},
-              {'pattern': '\\d{3}'}, {'values': ['red', 'green']}, {'min_len': 2, 'pattern': '[ab]*'}]
+              {'pattern': '\\d{3}'}, {'values': ['red', 'green']}, {'min_len': 2, 'pattern': '[ab]*'}, {'values': ['red']}]
     probes = ['', 'a', 'ab', 'abc', 'abcd', 'abcde', 'red', 'Red', 'green', 'abc1', '123', '1234', '12', 'ab\n', 'aab', 'b', 'ünï']
     for kw in tcases:
         T = Unicode.customize(**kw)
@@ -1194,6 +1194,20 @@ def forms_table():
         ('number-for-datetime', Wv(None, 5), NOCHECK, False, False),
         ('native-timestamp-in-range', Wv(None, d_(2021, 1, 1)), d_(2021, 1, 1), True, False),
         ('native-timestamp-below', Wv(None, d_(2019, 1, 1)), d_(2019, 1, 1), False, False)])
+    add('Decimal(values=[D("1.5"), D("2.5")])', 'Decimal+values', [
+        ('listed', Wv('2.5', '2.5'), D('2.5'), True, True),
+        ('listed-other-spelling', Wv('2.50', '2.50'), D('2.5'), True, True),
+        ('not-listed', Wv('3', '3'), D(3), False, True)])
+    add('Date(values=[datetime.date(2020, 1, 1)])', 'Date+values', [
+        ('listed', Wv('2020-01-01', '2020-01-01'), _dt.date(2020, 1, 1), True, True),
+        ('not-listed', Wv('2020-01-02', '2020-01-02'), _dt.date(2020, 1, 2), False, True)])
+    add('Time(values=[datetime.time(12), datetime.time(13)])', 'Time+values', [
+        ('listed', Wv('13:00:00', '13:00:00'), _dt.time(13), True, True),
+        ('not-listed', Wv('12:00:01', '12:00:01'), _dt.time(12, 0, 1), False, True)])
+    add('DateTime(values=[datetime.datetime(2020, 1, 1, tzinfo=utc)])', 'DateTime+values', [
+        ('listed', Wv('2020-01-01T00:00:00Z', '2020-01-01T00:00:00Z'), d_(2020, 1, 1), True, True),
+        ('listed-other-offset', Wv('2020-01-01T02:00:00+02:00', '2020-01-01T02:00:00+02:00'), d_(2020, 1, 1, 2, off=120), True, True),
+        ('not-listed', Wv('2020-01-01T00:00:01Z', '2020-01-01T00:00:01Z'), d_(2020, 1, 1, 0, 0, 1), False, True)])
     add('Duration', 'Duration', [
         ('one-day', Wv('P1D', 'P1D'), _dt.timedelta(1), True, True),
         ('garbage', Wv('xyz', 'xyz'), NOCHECK, False, True),
